@@ -51,6 +51,10 @@ def main():
         print(n, json.dumps(results[n]))
         sys.stdout.flush()
     json.dump(results, open(os.path.join(VERIF, "seeded", "RESULTS.json"), "w"), indent=1)
+    allp = os.path.join(VERIF, "seeded", "RESULTS_ALL.json")
+    allr = json.load(open(allp)) if os.path.exists(allp) else {}
+    allr.update(results)
+    json.dump(allr, open(allp, "w"), indent=1, sort_keys=True)
     missed = [n for n, r in results.items() if not (isinstance(r, dict) and r["caught"])]
     print("caught %d / %d; missed: %s" % (len(results) - len(missed), len(results), missed))
     return 0
